@@ -121,7 +121,9 @@ func gen(treesPath, resPath string) {
 	}
 	// MR5: a Bundle whose entries are resources of DIFFERENT types that share element names and backbone short names
 	// (Patient.Contact / Organization.Contact): one evaluation walks both
-	for _, m := range []string{"MR1", "MR2", "MR3", "MR5", "MR6"} {
+	// MR7, MR8: Bundles of an Observation, a DeviceRequest and a PlanDefinition in two orders - one step (code, subject) meets a
+	// plain element on one type and a choice element on another
+	for _, m := range []string{"MR1", "MR2", "MR3", "MR5", "MR6", "MR7", "MR8"} {
 		emit(m, lib.LoadModelResource(m))
 	}
 	for n, j := range jobs {
